@@ -6,19 +6,22 @@ import vlib
 
 PID = "C06"
 MANIFEST = {
-    "technique": "Lean 4 theorems (induction over the argument list / over the move schedule) on hand models of x86func.cpp, "
-                 "a64func.cpp, func.cpp, funcargscontext.cpp and emithelper.cpp + ABI rules written independently + C++/Lean correspondence",
-    "text": "Lean proves for every signature (any length, all integer/float/vector/mask types) that the model of FuncDetail::init yields "
-            "exactly the locations, stack-area size, callee-pop flag, red/shadow zones and preserved sets that the ABI rules "
-            "(Spec/ABI.lean: SysV x86-64, Win64, AAPCS64, Apple arm64, cdecl/stdcall/fastcall/thiscall/regparm) prescribe, and that every "
-            "move schedule the model of emit_args_assignment emits leaves each destination holding its (extended) argument on an abstract "
-            "machine, for every assignment. The models are tied to the real code by running CallConv::init, FuncDetail::init and "
-            "emit_args_assignment (into a Builder) on the same generated lines; the Lean monitors (the theorems' predicates) judge every "
-            "answer of the real code.",
-    "note": "Model follows the code with fixes/C06-1..7 applied. Trusted: Lean kernel; Spec/ABI.lean and Spec/Machine.lean as the meaning of "
-            "the ABIs / of mov, movsx, movzx, xchg, loads and stores; the harness/driver diff. Not claimed: light-call and x64 vectorcall "
-            "(no ABI rule written; model + correspondence only), x87 long double, call-site marshalling inside the register allocator "
-            "(C05), float<->float conversions and mmx/mask moves of emit_arg_move (correspondence only).",
+    "technique": "Lean 4 theorems (induction over the argument list with the counter state as invariant) on a hand model of x86func.cpp, "
+                 "a64func.cpp and func.cpp + ABI rules written independently (Spec/ABI.lean) + C++/Lean correspondence; the argument "
+                 "shuffle is judged by a Lean abstract-machine monitor run on the real code's instruction lists (no theorem yet)",
+    "text": "PARTIAL. Proved in Lean for every signature (any length, varargs or not) over the convention's type domain: the model of "
+            "FuncDetail::init yields exactly the locations (register / stack offset / by-reference), stack-area size, callee-pop flag, red / "
+            "shadow zone, stack alignment and preserved sets that the ABI rules prescribe for SysV x86-64, Win64, AAPCS64 and Apple arm64 "
+            "(detail_matches_abi_sysv/_win64/_a64, ret_matches_abi). The 32-bit x86 conventions have rules and a monitor but no theorem; "
+            "light-call and x64 vectorcall have model + correspondence only. The model is tied to the real code by running CallConv::init and "
+            "FuncDetail::init on the same generated lines and diffing; the Lean ABI monitor judges every answer of the real code. "
+            "emit_args_assignment is NOT modelled/proved: every instruction list the real code emits into a Builder for the generated "
+            "assignments (all permutations of <=4/5 registers, cycles, widening self-moves and swaps, stack sources/destinations) is executed "
+            "on the abstract machine of Spec/Machine.lean whose post-condition is the property (monitor = testing, not proof).",
+    "note": "Model follows the code with fixes/C06-1..6 applied (on the unrepaired tree the check reports exactly those deviations). Trusted: "
+            "Lean kernel; Spec/ABI.lean and Spec/Machine.lean as the meaning of the ABIs / of mov, movsx, movzx, xchg, loads and stores; the "
+            "harness/driver diff. Open findings C06-K1..K5 (known_findings.json). Not claimed: x87 long double, mmx on 32-bit, call-site "
+            "marshalling inside the register allocator (C05), shuffle_correct as a theorem.",
 }
 MODS = ["AsmjitVerif.Props.C06"]
 
@@ -126,15 +129,30 @@ def mon_line(op, ans, ccans):
                                                  f["ret"], " ".join(packs))
 
 
+def family(env, cc):
+    cdecl = cc in (0, 1, 2, 4, 5, 6, 7)
+    if env.startswith("x64"):
+        if cc == 32 or (cdecl and env == "x64l"):
+            return "sysv"
+        if cc == 33 or (cdecl and env == "x64w"):
+            return "win64"
+        return "%s:%d" % (env, cc)
+    if env.startswith("a64"):
+        return ("apple" if env == "a64d" else "aapcs64") if (cdecl or cc == 3) else "%s:%d" % (env, cc)
+    return "x86-32"
+
+
 def fd_key(op, why):
+    """stable key naming the failing class: ABI family + which part differs (mmx / long double are separate known classes)"""
     w = op.split()
     env, cc = w[1], int(w[2])
     types = [int(x) for x in w[6:]] + [int(w[4])]
-    if env.startswith("x64") and any(t in MMX for t in types) and why.startswith("BAD"):
-        return "abi:sysv-mmx" if (env == "x64l" and cc != 33) or cc == 32 else "abi:%s:%d:mmx" % (env, cc)
+    fam = family(env, cc)
+    if fam == "sysv" and any(t in MMX for t in types):
+        return "abi:sysv-mmx"
     if 44 in types:
         return "abi:float80"
-    return "abi:%s:%d:%s" % (env, cc, why.split()[1] if len(why.split()) > 1 else "?")
+    return "abi:%s:%s" % (fam, why.split()[1] if len(why.split()) > 1 else "?")
 
 
 def shrink_fd(h, op, key):
@@ -162,9 +180,9 @@ def run(res):
     rng = vlib.rng_for(res.seed, PID)
     res.assumptions += [
         "Spec/ABI.lean is our reading of the psABI / Microsoft / AAPCS64 / Apple documents (trusted as the meaning of 'the ABI prescribes')",
-        "the model follows the code with fixes/C06-1..7 applied; light-call, x64 vectorcall, Float80, x87/mmx returns: model + correspondence only",
-        "instruction semantics (mov/movsx/movzx/movsxd/xchg/ldr*/str*) = Spec/Machine.lean; emit_arg_move forms outside the integer and "
-        "same-type vector moves are compared textually only",
+        "the model follows the code with fixes/C06-1..6 applied; light-call, x64 vectorcall, Float80, x87/mmx returns: model + correspondence only",
+        "32-bit x86 conventions: rules + monitor, no theorem; emit_args_assignment: abstract-machine monitor on the real instruction lists only "
+        "(no model, no theorem); instruction semantics (mov/movsx/movzx/movsxd/xchg/ldr*/str*) = Spec/Machine.lean",
         "call-site marshalling in x86rapass/a64rapass (on_before_invoke) is not modelled here (C05)"]
     broken = []
     ok, out = vlib.lean_stage(res, PID, MODS)
